@@ -114,6 +114,11 @@ class Item:
         self.objs['net'] = netdesc.to_lib(d)
         by = {b.id: b for b in self.objs['net'].branches}
         self.objs['keep'] = [by[i].element for i in self.desc['keep']]
+        mode = self.desc.get('keep_mode', 'auto')
+        if mode == 'twin' or (mode == 'auto' and len(self.desc['net']['branches']) % 2):
+            # exemption list taken from a second, independently built copy of the same description (equal, not identical)
+            by2 = {b.id: b for b in netdesc.to_lib(d).branches}
+            self.objs['keep'] = [by2[i].element for i in self.desc['keep']]
         ns = netdesc.nodes(d)
         self.objs['pair'] = (ns[0], ns[-1])
         self.objs['elem'] = d['branches'][len(d['branches']) // 2]['id']
@@ -413,6 +418,22 @@ def judge(case, ctx, prefix='C20'):
                 bad = sorted(kk for kk in tables0 if tables.get(kk) != tables0[kk])
                 ctx.violation(f'{prefix}/default-or-table-mutated/{bad[0] if bad else "?"}', f'mutable defaults / module tables changed after {log[-16:]!r}: {bad!r}', {})
                 tables0 = tables
+    # ---- equal descriptions, equal answers: an exemption list holding the network's own element objects and one holding equal
+    # elements of an independently built copy of the same description must give the same result
+    KEEP_OPS = ('short_circuitify', 'open_circuitify', 'remove_shorts', 'remove_ideal_current_sources', 'remove_ideal_voltage_sources', 'passive_network')
+    for k, d in enumerate(pool):
+        if d['kind'] != 'net' or not d.get('keep'):
+            continue
+        for name in KEEP_OPS:
+            ops = ops_for('net', d)
+            if name not in ops:
+                continue
+            own = run_op(Item({**copy.deepcopy(d), 'keep_mode': 'own'}), name, ops)
+            twin = run_op(Item({**copy.deepcopy(d), 'keep_mode': 'twin'}), name, ops)
+            ctx.count('identity_pairs_compared')
+            dd = same(own, twin)
+            if dd:
+                ctx.violation(f'{prefix}/result-depends-on-object-identity/{name}', f'{name} on pool item {k}: an exemption list of the network\'s own element objects and one of equal elements from a rebuilt copy give different results at {dd}', {})
     ctx.sample({'pool_kinds': [d['kind'] for d in pool], 'history_head': log[:12], 'length': case['length']})
 
 
